@@ -10,7 +10,7 @@
    the descriptor environment. *)
 From Coq Require Import ZArith List Bool.
 From PBC Require Import Impl.Desc Impl.Mem Impl.Unpack Impl.Canon Spec.WireRaw Proofs.ScanInv Proofs.Required.
-From PBC Require Proofs.LeafSafe Proofs.SpecRefine2 Proofs.RequiredSpec.
+From PBC Require Proofs.LeafSafe Proofs.SpecRefine2 Proofs.RequiredSpec Proofs.Examples.
 Import ListNotations.
 Local Open Scope Z_scope.
 
@@ -69,3 +69,22 @@ Theorem C11_present_on_the_wire_passes : forall (E : env), env_ok E = true -> fo
                    alloc_slots (md_fields md) (st_bitmap st) (st_slots st) = Ok slots.
 Proof. exact RequiredSpec.present_on_the_wire_passes. Qed.
 Print Assumptions C11_present_on_the_wire_passes.
+
+(* the hypotheses of the two statements above are met by concrete inputs of the example schema
+   (field 1: required int32 without default): [24;5] lacks it and is refused, [24;5;8;7] carries it and parses *)
+Theorem C11_missing_on_the_wire_not_vacuous :
+  env_ok Examples.ex_env = true /\ nth_error Examples.ex_env 0 = Some RequiredSpec.ex_md /\
+  exists rs f, read_raw 5 [24;5] = Some rs /\ Forall (SpecRefine2.rec_good RequiredSpec.ex_md) rs /\
+    nth_error (md_fields RequiredSpec.ex_md) 0 = Some f /\ must_appear f = true /\
+    (forall r, In r rs -> rr_num r <> f_id f) /\
+    unpack Examples.ex_env 1 0 [24;5] = Err EFail.
+Proof. exact RequiredSpec.missing_hypotheses_met. Qed.
+Print Assumptions C11_missing_on_the_wire_not_vacuous.
+
+Theorem C11_present_on_the_wire_not_vacuous :
+  exists rs, read_raw 5 [24;5;8;7] = Some rs /\ Forall (SpecRefine2.rec_good RequiredSpec.ex_md) rs /\
+    (forall i f, nth_error (md_fields RequiredSpec.ex_md) i = Some f -> must_appear f = true ->
+       exists r, In r rs /\ rr_num r = f_id f) /\
+    exists m, unpack Examples.ex_env 5 0 [24;5;8;7] = Ok m.
+Proof. exact RequiredSpec.present_hypotheses_met. Qed.
+Print Assumptions C11_present_on_the_wire_not_vacuous.
